@@ -199,6 +199,88 @@ CHECKS.update({
   ref="DESIGN.md §5 C09, docs/C09.md", tech="proof over a grammar table regenerated from source + correspondence"),
 })
 
+CHECKS.update({
+ "C01": dict(
+  text=("Two sub-checks. (1) VM-level THEOREM (coq/c01vm, ~4300 lines, closed, no axioms): a Gallina transcription of the bytecode "
+        "compiler (same code layout, back-patching and peephole pass) and of the backtracking stack VM, and compile-correctness: "
+        "for every program of fragment F (identity, literals incl. constant arrays/objects, pipe, comma, empty, iterate, "
+        "constant index, if/elif/else, //, try/catch and ?, array construction, reduce, foreach, label/break, `as` bindings, "
+        "variables, natives error/length/+ - and comparisons on inlinable operands), every input and every instance of the "
+        "natives, the VM on the compiled code emits exactly the outputs of the denotational generator semantics in order with the "
+        "same ending, never gets stuck; peephole_sound separately. Tied to compiler.go on every run by comparing the model's "
+        "instruction list with VerifDumpCode of the real compiler on ~27k generated programs, and outputs three ways. "
+        "(2) Executable REFERENCE SEMANTICS of the whole core language (coq/sem: fuelled demand-driven CPS evaluator over the "
+        "query.go AST transported from gojq.Parse, builtin.jq of the current tree regenerated as a Gallina term, ~110 natives, "
+        "path tracking) extracted and judging every (program,input) case: all programs with <=3 constructs, random programs up to "
+        "60 nodes biased to the hazards named in the property, the test.yaml queries and token mutations, inputs in all Go number "
+        "representations; 13 theorems about the semantics (fuel monotonicity of the WHOLE evaluator, comma/pipe/empty laws, first "
+        "stops, try catches body errors only, label/break, reduce/foreach unfolding, path concatenation)."),
+  note=TRUST + "coq/c01vm: closed under the global context. coq/sem: Flocq's Reals axioms (ClassicalDedekindReals.sig_not_dec, "
+       "sig_forall_dec, functional_extensionality_dep, Classical_Prop.classic) through binary64. PARTIAL: compile-correctness is "
+       "proved for fragment F; closures/function definitions/paths/natives with closure operands are decided by correspondence "
+       "against the reference semantics (model-based differential testing with ~2% of cases skipped as unsupported, reported in the "
+       "evidence). C01_full is kept as a Definition.",
+  ref="DESIGN.md §5 C01, docs/C01vm.md, docs/C01.md, docs/SEM.md",
+  tech="compile-correctness proof in Coq for a fragment (model tied by instruction-list correspondence) + extracted reference semantics"),
+ "C04": dict(
+  text=("(1) Coq (coq/c01vm, closed): peephole_sound (the rewritten code is observationally equal under the side condition the "
+        "optimiser now checks) and compile-correctness of the OPTIMISING compiler model (constant folding of arrays/objects, "
+        "peephole, inlined arguments) against an optimisation-free denotation for fragment F. (2) Coq (coq/sem): 8 theorems - the "
+        "semantics-preserving source rewrites R1..R7 that defeat each optimisation's precondition are identities in the reference "
+        "semantics; the model of the constant folder (toNumber/toIndexKey) is sound; opindex equals _index. (3) No guard lines in "
+        "compiler.go: every generated program is run optimised and with each de-optimising rewrite applied (wrap a literal element "
+        "in (X|.), .[\"k\"|.], f(.|.), (f|.), if (c|.) ...) on the same implementation and must give identical observations, and "
+        "agree with the reference semantics."),
+  note=TRUST + "PARTIAL: rewrites on function arguments and bodies (R3/R4) are exercised, not proved; tail-call elimination and "
+       "jump threading are exercised only. One known finding (error class of the constant-path assignment shortcut). The "
+       "instruction-list correspondence tying coq/c01vm to compiler.go runs under C01 (and here in the thorough tier).",
+  ref="DESIGN.md §5 C04, docs/C04.md, docs/C01vm.md", tech=TECH),
+ "C08": dict(
+  text=("Coq over tables TRANSLATED from the current parser.go on every run: parse_driver_total - for EVERY token list and fuel the "
+        "goyacc driver model never reaches a panic site (table index out of range: finite check over 282 states x tokens and 158 "
+        "rules lifted by forallb_forall; stack pop count and yyDollar indices: invariant proof using per-state minimum depths and "
+        "the 2108-edge relation computed and checked inside Coq). flags_total: cli parseFlags returns Ok or a usage error for every "
+        "argument vector (termination by rank). Totality of the error preview writer, encodeString and the float exponent clean-up. "
+        "Lexer totality is C09's theorem. Crash search on the implementation (library in-process under recover and a deadline, "
+        "command through a hook; thorough: the built binary under ulimit): byte-level mutations of the corpus queries, every "
+        "builtin with wrong-typed/boundary arguments, inputs over all Go representations, random CLI argument vectors and stdin, "
+        "extra Next calls after exhaustion and errors; Parse must return a query or a ParseError with Offset within the source."),
+  note=TRUST + "Closed under the global context. PARTIAL: driver termination is not proved (never ran out of fuel 100(n+3) in the "
+       "correspondence); type assertions inside grammar actions and the VM/natives are covered by the crash search and by "
+       "C01/C03 models, not by a whole-pipeline theorem. Programs exceeding the time budget are counted as legitimately unbounded.",
+  ref="DESIGN.md §5 C08, docs/C08.md", tech="proof over parser tables regenerated from source + crash search"),
+ "C12": dict(
+  text=("Coq models of Go's UTF-8 decoding, encodeString byte for byte, array/object/number encoding (floats through Section "
+        "hypotheses on strconv's text with the gojq-specific logic modelled exactly) and the CLI encoder (indent/tab/colour, "
+        "writeIndentInternal's doubling copy, 8 KiB flush) plus a reference RFC 8259 reader. 23 theorems, closed: for EVERY byte "
+        "string encodeString is a JSON string literal, valid UTF-8, no raw control byte or DEL, and reads back as sanitize s (s "
+        "itself when valid); decode(encode v) = norm v for every well-formed value, also through the CLI encoder for every option "
+        "record and colour table; keys sorted; writeIndentInternal n emits exactly n units for every n and block length; the "
+        "stateful encoder equals the pure text whatever the flush history; every line is indented depth*unit; stripping SGR and "
+        "insignificant whitespace from any CLI mode gives the library encoding. Correspondence byte for byte: all strings of "
+        "length <=2 over the property's byte alphabet (exhaustive), random strings, float bit-pattern classes, containers x option "
+        "combinations, the whole command; Go-side oracles (encoding/json reads back equal, ParseFloat bit-exact, tojson|fromjson, "
+        "YAML round trip)."),
+  note=TRUST + "Closed under the global context. strconv.AppendFloat is outside /repo (shape and round-trip hypotheses checked on "
+       "every sampled float). The YAML clause is go-yaml's code: implementation oracle only; two known findings there. "
+       "-r/-j/--raw-output0 are modelled and compared, without a theorem.",
+  ref="DESIGN.md §5 C12, docs/C12.md", tech=TECH),
+ "C17": dict(
+  text=("Coq transcription of cli/error.go getLineByOffset (LF/CRLF/CR scanning, 48/64-byte excerpt window, rune trimming, caret "
+        "column with display width as a Section variable) and of both window bookkeepings of cli/inputs.go (seekable getContents; "
+        "the pipe buffer trimmed to the decoder's input offset, for an arbitrary read-ahead). 8 theorems, closed: "
+        "line_by_offset_correct for EVERY contents and offset (line number, excerpt is a piece of the right line, caret under the "
+        "offending byte, no character cut), past-end and low offsets; pipe_window_correct for every read-ahead and "
+        "seekable_window_correct under the hypothesis that every CR is followed by LF; both unconditional statements are REFUTED "
+        "with lone-CR witnesses (known findings). Lexer Offset/Token theorem lives in C09. Correspondence: every corruption "
+        "position x sizes up to several buffers x preceding documents x seekable/7 pipe read policies/file x LF/CRLF/CR, stderr "
+        "header vs the model and vs the spec at the offset of an independent encoding/json run; bad queries of every token kind; "
+        "thorough: the built binary with real files and pipes."),
+  note=TRUST + "Closed under the global context. go-runewidth and go-yaml are outside /repo (width is a Section variable; YAML index "
+       "rendering only). Three known findings: lone-CR terminators before the window (2), --stream offsets from dec.Token().",
+  ref="DESIGN.md §5 C17, docs/C17.md", tech=TECH),
+})
+
 ORDER = ["C%02d" % i for i in range(1, 21)]
 NOT_APPLICABLE = {}
 PENDING_REASON = "check under construction in this development (builder not finished); not claimed yet"
